@@ -178,7 +178,10 @@ func extractTarDirectory(dirPath, dirName string, r io.Reader, buf []byte, prese
 		// Create content
 		switch header.Typeflag {
 		case tar.TypeReg:
-			err = writeFile(filePath, tr, header.FileInfo().Mode(), buf)
+			// do not write through a symbolic link left at the entry's path
+			if err = removeSymlink(filePath); err == nil {
+				err = writeFile(filePath, tr, header.FileInfo().Mode(), buf)
+			}
 		case tar.TypeDir:
 			err = os.MkdirAll(filePath, header.FileInfo().Mode())
 		case tar.TypeLink:
@@ -277,6 +280,15 @@ func ensureLinkPath(baseAbs, baseRel, link, target string) (string, error) {
 		return "", err
 	}
 	return target, nil
+}
+
+// removeSymlink removes the file specified by the `path` parameter if it is a
+// symbolic link.
+func removeSymlink(path string) error {
+	if info, err := os.Lstat(path); err == nil && info.Mode()&os.ModeSymlink != 0 {
+		return os.Remove(path)
+	}
+	return nil
 }
 
 // writeFile writes content to the file specified by the `path` parameter.
